@@ -36,7 +36,11 @@ Cat7 == Mk(<< <<"elem","a",1,"">>, <<"elem","b",2,"">>, <<"elem","c",3,"">>, <<"
 Cat8 == Mk(<< <<"elem","a",1,"">>, <<"elem","a",2,"">>, <<"elem","b",3,"">>, <<"elem","b",4,"">>, <<"elem","a",5,"">>,
               <<"attr","a",6,"1">>, <<"text","",6,"1">>, <<"elem","b",5,"">>, <<"text","",4,"2">>, <<"elem","a",3,"">>,
               <<"elem","b",2,"">> >>)
-Catalogue == <<Cat1, Cat2, Cat3, Cat4, Cat5, Cat6, Cat7, Cat8>>
+\* two identical branches four levels deep: nodes at the same depth and the same sibling positions in different branches
+\* (lossy position keys, caches keyed by "place")      a( b( a( b( a ) ) ), b( a( b( a ) ) ) )
+Cat9 == Mk(<< <<"elem","a",1,"">>, <<"elem","b",2,"">>, <<"elem","a",3,"">>, <<"elem","b",4,"">>, <<"elem","a",5,"">>,
+              <<"elem","b",2,"">>, <<"elem","a",7,"">>, <<"elem","b",8,"">>, <<"elem","a",9,"">> >>)
+Catalogue == <<Cat1, Cat2, Cat3, Cat4, Cat5, Cat6, Cat7, Cat8, Cat9>>
 
 (***************************************************************************)
 (* Value documents: node values range over numeric, non-numeric, empty,    *)
